@@ -88,6 +88,9 @@ def check(prop, tier, seed):
             why.append("coq/Props/%s.vo did not build: %s" % (prop, mk_log[-3000:]))
         elif assumptions is None:
             why.append("Print Assumptions failed: " + a_log[-1500:])
+        if not mk_ok:
+            errs = [ln for ln in mk_log.splitlines() if ln.startswith("File ") or "Error" in ln or ln.startswith("make")]
+            why.append("make reported: " + " / ".join(errs[:12]) + " ... " + mk_log[-1500:])
         proof_failure = " | ".join(why)
     model_files_ok = all(
         os.path.exists(os.path.join(C.COQ, f[:-2] + ".vo")) for f in getattr(mod, "MODEL_FILES", [])
